@@ -351,6 +351,16 @@ def run(ctx):
                         I = l_.target.id
                         Bn, Tn = [norm(e) for e in s2.targets[0].elts]
                         outer = [l_]
+                # ... or B = E[I][0]; T = E[I][1] as two statements
+                two = {}
+                for s2 in l_.body:
+                    if isinstance(s2, ast.Assign) and isinstance(s2.targets[0], ast.Name) and isinstance(s2.value, ast.Subscript) and isinstance(s2.value.value, ast.Subscript) \
+                            and norm(s2.value.value.slice) == l_.target.id and isinstance(s2.value.slice, ast.Constant) and s2.value.slice.value in (0, 1):
+                        two[s2.value.slice.value] = s2.targets[0].id
+                if len(two) == 2 and not outer:
+                    I = l_.target.id
+                    Bn, Tn = two[0], two[1]
+                    outer = [l_]
     if not outer or not inner or inner[-1] is outer[0]:
         raise AnalysisError('construct not understood: loops of sigma2coeff (for i, (b, t) in enumerate(edges): for lay in range(..))')
     lv = inner[-1].target.id
